@@ -1088,7 +1088,16 @@ class Sim18:
             exact = got.tobytes() == want.tobytes() or same_numbers(got.ravel().tolist(), want.ravel().tolist())
             if not exact:
                 self.oracleC["within_tol"] = self.oracleC.get("within_tol", 0) + 1
+                if __import__("os").environ.get("UNYTSIM_LIST_WITHIN_TOL"):
+                    print("WITHIN-TOL", op["t"], op.get("p"), str(got.dtype), [classify(c) for c in copies.values()],
+                          got.ravel().tolist()[:3], want.ravel().tolist()[:3], [str(c.units) for c in copies.values()], flush=True)
+                if t.cat in ("iconv", "iequiv") and not int_payload:
+                    # float and complex payloads of the in-place conversions: "exactly the numbers of the
+                    # corresponding copying call" is taken literally (it holds to the bit on the pinned tree)
+                    bad = "numbers"
                 for x, y in zip(got.ravel().tolist(), want.ravel().tolist()):
+                    if bad:
+                        break
                     cx = [x.real, x.imag] if isinstance(x, complex) else x
                     cy = [y.real, y.imag] if isinstance(y, complex) else y
                     if not rw.close(cx, cy, str(got.dtype)):
@@ -1191,7 +1200,7 @@ def sweep_case(index):
     n = 1
     for d_ in shape:
         n *= d_
-    base = [2.0, 3.0, 5.0, 7.0, 11.0]
+    base = [2.3, 3.7, 5.1, 7.9, 11.3]
     ops = []
     args = {}
 
